@@ -15,6 +15,7 @@ and of a fresh artefact produced by the Makefile's own command from `measured.la
 
 from __future__ import annotations
 
+import os
 import itertools
 import time
 from typing import Any, Dict, List, Optional, Tuple
@@ -37,7 +38,7 @@ from measured import _parser
 tmp = tempfile.mkdtemp(prefix='c16-replay-')
 try:
     src = subprocess.run([sys.executable, '-m', 'lark.tools.standalone', '--start', 'unit', '--start',
-                          'quantity', '/repo/src/measured/measured.lark'], capture_output=True, text=True, cwd=tmp)
+                          'quantity', os.environ.get('VERIF_REPO', '/repo') + '/src/measured/measured.lark'], capture_output=True, text=True, cwd=tmp)
     if src.returncode != 0:
         print('REPRODUCED: the grammar file does not build:', src.stderr[-300:]); sys.exit(1)
     open(os.path.join(tmp, 'fresh.py'), 'w').write(src.stdout)
